@@ -95,6 +95,10 @@ def run(ck):
                 bad = [COMP_NAMES[k][j - 1] for j in range(1, len(comps)) if comps[j]] if len(comps) > 1 else []
                 kind = "isolated violation: " + ("+".join(bad) if bad else "none (wire unused by the widget)")
                 add_case(f"forced prover: {SEL[k]} row, wire {'abcd'[pos % 4]}{chr(39) if pos >= 4 else ''} perturbed", good, circ(vs), kind=kind)
+    # two non-quad digits of one range row whose delta values cancel (accepted only if two quad checks share a weight)
+    from .c09 import cancelling_cases
+    for cid, body, over, pr in cancelling_cases(rng):
+        add_case(f"forced prover: range row with cancelling non-quad digits (quad checks {pr[0]},{pr[1]})", body, body + [f"setw {i} {hx(v)}" for i, v in sorted(over.items())], kind="cancelling quads")
     # public input inconsistent with its witness
     for _ in range(2 if quick else 10):
         v = rng.scalar()
